@@ -323,6 +323,39 @@ func (w *World) Apply(line string) (final string, result string) {
 			return final, errLine(err)
 		}
 		return final, "ok"
+	case f[0] == "resyncsnap" && len(f) == 1:
+		var entries []schedulerplugin.VerifResyncEntry
+		var err error
+		if o := guard(func() { entries, err = w.Plugin.VerifPluginFetchChecklist() }); o != "ok" {
+			return line, o
+		}
+		if err != nil {
+			return line, errLine(err)
+		}
+		w.Snap = map[uint32]schedulerplugin.VerifResyncEntry{}
+		for _, e := range entries {
+			if ip, ok := ParseIPv4(e.VerifIP()); ok {
+				w.Snap[ip] = e
+			}
+		}
+		return line, "ok"
+	case f[0] == "resyncrec" && len(f) == 4:
+		ip64, err := strconv.ParseUint(f[1], 10, 32)
+		if err != nil {
+			return line, "bad-op"
+		}
+		e, ok := w.Snap[uint32(ip64)]
+		if !ok {
+			return line, "inadmissible-choice"
+		}
+		delete(w.Snap, uint32(ip64))
+		w.Cnt.Reset(atoiDef(f[2]))
+		w.Prov.Reset(atoiDef(f[3]))
+		if o := guard(func() { w.Plugin.VerifPluginResyncOne(e) }); o != "ok" {
+			return line, o
+		}
+		w.drain()
+		return line, "ok"
 	case f[0] == "syncips" && len(f) == 2:
 		w.Cnt.Reset(atoiDef(f[1]))
 		w.Prov.Reset(0)
@@ -380,6 +413,7 @@ func (w *World) Apply(line string) (final string, result string) {
 		return line, "ok"
 	case f[0] == "restart" && len(f) == 1:
 		w.Events = nil
+		w.Snap = map[uint32]schedulerplugin.VerifResyncEntry{} // the resync goroutine dies with the process
 		w.syncListers(true, true)
 		var rerr error
 		if o := guard(func() { rerr = w.startPlugin() }); o != "ok" {
